@@ -25,7 +25,8 @@ PROPS["C16"] = {
                   "pure function of the string with a handful of state variables, so short strings reach every state transition; "
                   "no proof is claimed beyond the bound.",
     "level_note": "Trusted: the reference tokeniser (lib/reflex.go, ~100 lines written from the README token description), strconv for "
-                  "number classification. Only spaces are varied as separators.",
+                  "number classification. Only spaces are varied as separators."
+                  " Later widening: tab, line end and the byte 0xff are in the exhaustive alphabet; the reference tokeniser treats space, tab and line end as blanks, folds case without touching bytes that are not UTF-8, and abstains on other Unicode blanks.",
     "rule": "leg Exhaustive: every string of length 1..L over the 25-symbol token alphabet "
             "{a 1 . space ' \" ` = ! < > ^ ~ & | ( ) [ ] , ; + - * /} (L=4 quick, L=5 thorough), each emitted exactly once; "
             "leg Spacing: rapid-generated token sequences (<=8 tokens: keywords in mixed case, names, numbers, floats, "
@@ -62,7 +63,8 @@ PROPS["C01"] = {
                   "from stored keys/values and their neighbours so boundaries are dense.",
     "level_note": "Trusted: reference evaluator lib/refeval.go (README semantics; assumption A-div: int/int division truncates), "
                   "reference store. Corners the README leaves open (int() of non-numeric text, float rendering, overflow, "
-                  "non-ASCII case mapping, BETWEEN with lower>=upper) are never generated.",
+                  "non-ASCII case mapping, BETWEEN with lower>=upper) are never generated."
+                  " Later widening: one case in six joins a predicate over a list value (IN over split()/list(), len, [n]); IN lists of 33-70 keys; stores up to 130 pairs; one integer store in six holds integers near the int64 limits (the reference abstains on arithmetic beyond 2^40); trailing semicolons.",
     "rule": "rapid: store kind x size {0..70} x batch size {1,2,3,5,32} x predicate depth 0..4 (comparisons, ^=, ~=, IN, BETWEEN, "
             "& | and or !, arithmetic, int/float/str/upper/lower/strlen/is_int/is_float/join/len(split)), literal on either side, "
             "`select * where P` and bare `where P`. Non-trivial = at least one stored pair satisfies P and at least one does not; "
@@ -90,7 +92,8 @@ PROPS["C02"] = {
                   "exact; and the executed rows (or the store after DELETE) must equal the reference-filtered full scan.",
     "level_note": "Trusted: reference evaluator, region extraction from exported fields (MultiGetPlan.Keys, PrefixScanPlan.Prefix, "
                   "RangeScanPlan.Start/End, RemovePlan.Keys). The key universe (all keys of length <= maxLiteral+1 over {` a b c}) is checked by "
-                  "TestC02Universe to realise every order/prefix relationship a random byte-string key can have to the literals.",
+                  "TestC02Universe to realise every order/prefix relationship a random byte-string key can have to the literals."
+                  " Later widening: IN lists whose elements are computed ('a' + '', lower('A')) next to literal ones.",
     "rule": "enumerated predicate trees (each emitted once) + rapid-sampled deep trees; both SELECT and DELETE forms. "
             "Non-trivial = the planner chose a region narrower than FULL and at least one key of the universe satisfies the predicate; "
             "distinct = distinct statements.",
@@ -145,7 +148,8 @@ PROPS["C05"] = {
                   "! and nested &/|), function arguments, IN left sides / list-valued right sides / items, BETWEEN bounds, list index bases, "
                   "inside other definitions (chains), ORDER BY and GROUP BY.",
     "level_note": "Trusted: reference evaluator and RefSelect (lib/refselect.go). A bare name as a whole select field or whole WHERE is not "
-                  "generated (not a use the property lists); duplicate alias names are not generated. ORDER BY ties are compared as multisets.",
+                  "generated (not a use the property lists); duplicate alias names are not generated. ORDER BY ties are compared as multisets."
+                  " Later widening: a field that is only a name (n as m) and repeated names (a later field reusing an earlier name of the same type) ARE generated now; names that need back quotes (blank, dash, capitals); aggregate fields built on the names of earlier aggregate or group fields. Leg TestC05NameKeyCollide draws names and keys from fragments with '-', ':' and digits; leg TestC05DynamicCache runs templates over JSON members in runs of one kind and only compares cache on against cache off within one mode (the reference has no semantics for JSON).",
     "rule": "rapid: store kind x size x batch size x 1-4 select fields (typed expressions, 75% named) x WHERE depth 0-3 with 35% alias bias; "
             "one in four statements is an aggregate grouped by named fields; one in three has ORDER BY. "
             "Non-trivial = a name is used in WHERE and, in key order, a pair the filter rejects precedes a pair it accepts "
@@ -172,7 +176,8 @@ PROPS["C03"] = {
                   "completes, row iteration must complete; if both complete, rows must be equal position by position under the content value "
                   "model (ORDER BY ties as multisets) and writes must leave equal stores. Statements may fail at run time (that is part of the domain).",
     "level_note": "No reference evaluator is involved: the two iteration modes are compared with each other, which is what the property states. "
-                  "Row-ok/batch-error is allowed (row mode short-circuits & and |) and counted.",
+                  "Row-ok/batch-error is allowed (row mode short-circuits & and |) and counted."
+                  " Row and batch iteration are compared under the SAME batch-size setting (statements that drive their child in chunks evaluate ahead according to the setting in either mode); rows are also compared across the two settings whenever both row runs complete.",
     "rule": "rapid: store kind x size (0..70) x two batch sizes x statement (60% SELECT with aliases/aggregates/order/limit, 10% DELETE, 15% PUT, 15% REMOVE) "
             "with exotic constructs enabled. Non-trivial = both modes complete, the result has >= 2 rows or spans more than one chunk, and the "
             "statement uses a construct with a twin implementation (function, alias, index, aggregate, order, limit, write); "
@@ -196,7 +201,8 @@ PROPS["C04"] = {
                   "original evaluates without error the rewritten tree must evaluate to the same value of the same kind (Execute and ExecuteBatch); "
                   "both are compared with the reference evaluator, and the full query through BuildPlan must return the reference rows.",
     "level_note": "Trusted: reference evaluator (third leg only; the first two legs compare the engine's own evaluator before/after rewriting). "
-                  "Floats are exactly representable (k/4) and small so equality is exact; literal zero divisors are refused statically and skipped.",
+                  "Floats are exactly representable (k/4) and small so equality is exact; literal zero divisors are refused statically and skipped."
+                  " Later widening: floats that are not exactly representable (0.1, 0.2) and constant conversion calls (float(3), float('2'), int('7')) among the leaves. Pairs on which the reference reports a magnitude error (the original only evaluates by wrapping around int64) are skipped and counted.",
     "rule": "enumerated expressions placed as select field or inside a WHERE comparison (each emitted once) + rapid typed trees depth 1-4. "
             "Non-trivial = the rewrite changed the rendered expression (String() differs) and the original evaluates on at least one pair; "
             "distinct = distinct statements.",
@@ -222,7 +228,8 @@ PROPS["C15"] = {
                   "again and must render and parse identically (fixpoint); a statement-level leg does the same for WHERE and every select field of "
                   "generated SELECTs with named fields (names print as `name` and are re-parsed under the same select list).",
     "level_note": "Trusted: the documented precedence table as encoded in lib/render.go (DocPrec) and the s-expression walkers. Literals are free of "
-                  "quote characters (the language has no escape syntax). Only pre-optimisation trees are round-tripped.",
+                  "quote characters (the language has no escape syntax). Only pre-optimisation trees are round-tripped."
+                  " Later widening: names that need back quotes in generated statements; leg TestC15Names: back-quoted names that are not select fields (capitals, blanks, operator characters, keywords, numbers) as arguments, list items and operands - the printed filter must parse to the same tree and select the same rows.",
     "rule": "enumerated operator sequences (each emitted once; typeable ones are cases) + rapid trees depth 1-5 x 4 parenthesis styles x random case, "
             "as WHERE or as select field. Non-trivial = the expression has at least two binary operators (precedence or associativity is exercised); "
             "distinct = distinct query texts.",
@@ -253,7 +260,8 @@ PROPS["C06"] = {
                   "worker process (stack overflow and other fatal errors bypass recover; the driver attributes them through the case journal) "
                   "is a violation.",
     "level_note": "The poll cap (4*pairs + len(query) + 64 polls) is deterministic, no wall clock is used as a correctness signal. "
-                  "Native fuzzing cannot be pinned to a seed; its saved failing input is the reproducible unit. Cache-off exponential alias fan-out is not explored.",
+                  "Native fuzzing cannot be pinned to a seed; its saved failing input is the reproducible unit. Cache-off exponential alias fan-out is not explored."
+                  " Later widening: every query text also goes through BuildExecutor; quantile percents outside [0, 1] written as constant expressions; leg TestC06Chains plans and runs chains of up to 40 named fields that each use the previous name twice (also as parameter of quantile / group_concat) under a 20 s deadline per statement - the one place where wall-clock time decides, four orders of magnitude above the linear cost.",
     "rule": "rapid legs Grammar/Corrupt + deterministic legs Long/Seeds (+ native fuzz executions in the thorough tier, counted as evaluations only). "
             "Non-trivial = the statement reached execution (plan built and at least one storage read) or it was rejected with a positional error; "
             "distinct = distinct (query text, store size).",
@@ -286,7 +294,8 @@ PROPS["C14"] = {
                   "operand-type class error.",
     "level_note": "Operand-type error = message contains one of: wrong type, not boolean, not string, not number, parameter type, not list/List/JSON, "
                   "require number/string type, Cannot find function, arguments but got. JSON field access is excluded from the acceptance leg as the "
-                  "property says. The acceptance leg only asserts acceptance for the sub-language of DESIGN.md §2.2.",
+                  "property says. The acceptance leg only asserts acceptance for the sub-language of DESIGN.md §2.2."
+                  " Later widening: leg TestC14Matrix runs every operator over every pair of operand forms of every static type (15 forms, as select field and as WHERE): whatever the verdict, it must come at plan build - rejected with zero storage calls, or accepted and never failing with an operand-type error; raw-text forms for shapes the AST cannot express (faults in a second subscript, key in a put key, aggregates in aggregate arguments / GROUP BY / WHERE) and for shapes that must be accepted (Boolean literals under and/or, ! under comparisons, a Boolean name as the whole WHERE); half of the mutant hosts use the wider language (JSON cascades).",
     "rule": "deterministic fault x position grid (each cell once) + rapid mutants + rapid well-typed statements. Non-trivial = a mutant whose fault is "
             "not at the root of WHERE / a select field / a PUT or REMOVE operand, a grid cell, or a well-typed statement with at least two operators; "
             "distinct = distinct statements.",
@@ -311,7 +320,8 @@ PROPS["C17"] = {
                   "BindQuery the text has exactly query / caret / message lines, the window (minus '... ' / ' ...') is the stretch of the query that "
                   "puts query[Pos] exactly above the caret (end of the trimmed text for -1, first non-blank for offsets inside leading blanks), and the "
                   "message line is indented by the padding.",
-    "level_note": "Single-line queries only (the window logic is line oriented); crashes while rendering are C06's subject and are also reported here as violations of the render leg.",
+    "level_note": "Single-line queries only (the window logic is line oriented); crashes while rendering are C06's subject and are also reported here as violations of the render leg."
+                  " The reference tokeniser abstains on Unicode blanks other than space, tab and line end (the engine's own token starts are accepted there).",
     "rule": "rapid legs Corrupt / RunTime / Typed (+ native fuzz executions in the thorough tier). Non-trivial = a positional error with Pos >= 0 in a "
             "query longer than 70 bytes or with leading blanks; distinct = distinct (query, padding mode).",
     "assumptions": ["Go toolchain and pgregory.net/rapid v1.3.0 are trusted", "token starts are taken from the engine lexer (validated by C16) and from the reference tokeniser"],
@@ -334,7 +344,8 @@ PROPS["C07"] = {
                   "independent lexicographic comparator that uses the declared type of each order field from the generating AST (text byte-wise, numbers "
                   "numerically across int/float and numeric text of group columns, false before true) and the written direction. A lone "
                   "`order by key asc` must leave the sequence unchanged. The un-ordered base itself is cross-checked against the reference evaluator.",
-    "level_note": "Trusted: comparators in lib/refselect.go, reference select. Ties may come in any order (only sortedness and permutation are demanded).",
+    "level_note": "Trusted: comparators in lib/refselect.go, reference select. Ties may come in any order (only sortedness and permutation are demanded)."
+                  " Later widening: the harness comparator is exact (big.Float); float stores hold NaN in one case of three - rows with a NaN order key are exempt from the adjacency check, all other rows must be sorted among themselves; integers near the int64 limits.",
     "rule": "rapid: store x select list with named text/int/float/bool fields (25% aggregates with GROUP BY) x 1-3 ORDER BY keys x directions x batch {2,3,32} x {row,batch}. "
             "Non-trivial = at least 3 rows, at least one strictly ordered adjacent pair, and (for more than one key) at least one tie on the first key; "
             "distinct = distinct (query, store, batch size).",
@@ -357,7 +368,8 @@ PROPS["C08"] = {
                   "same length, same order keys position by position, rows a sub-multiset); for DELETE the removed keys and every key passed to "
                   "Delete/BatchDelete must be exactly the slice of the reference-filtered key list. Non-matching pairs are interleaved so that child "
                   "batches have varying sizes. rapid adds large random points (result sizes to 200, batch sizes to 64).",
-    "level_note": "The unlimited result is itself compared with the reference-filtered list for the un-ordered kinds. Negative or huge LIMIT numbers are outside the domain.",
+    "level_note": "The unlimited result is itself compared with the reference-filtered list for the un-ordered kinds. Negative or huge LIMIT numbers are outside the domain."
+                  " Later widening: counts and offsets near MaxInt64 ('everything after row s') in grid and sampled legs; the expected slice is computed without adding s and n.",
     "rule": "enumerated grid points x kind x mode x spelling (each once) + rapid points. Non-trivial = 0 < offset and offset+count < result size, or "
             "offset is a positive multiple of the batch size, or count is a positive multiple of the batch size; distinct = distinct grid points x kind x mode.",
     "assumptions": COMMON_ASSUMPTIONS,
@@ -380,7 +392,8 @@ PROPS["C09"] = {
                   "(('a','bc') vs ('ab','c'), ('1','1x') vs ('11','x')).",
     "level_note": "Group columns are compared by content with the engine's textual rendering of an integer accepted as the integer; json_arrayagg is compared "
                   "structurally. Mixed int/float aggregate arguments, float group values and non-UTF-8 text under json_arrayagg are outside the domain. "
-                  "Every non-aggregate select field is one of the GROUP BY expressions.",
+                  "Every non-aggregate select field is one of the GROUP BY expressions."
+                  " Later widening: the reference reads numeric text and defines sum/avg/min/max of groups that mix integers and floats (min/max: by value, either kind accepted); float-valued and Boolean group columns; Boolean aggregate fields with a constant side; group values and scalar calls around aggregates (strlen(key) + count(1), str(count(1))); leg TestC09DynamicGroups groups by a JSON member that is a number, a text, a Boolean or null and compares group membership with equality of (kind, value).",
     "rule": "rapid legs TestC09 (general) and TestC09Collide. Non-trivial = at least 2 groups and (a group with at least 2 pairs, or two distinct group "
             "tuples with equal concatenation); distinct = distinct (query, store, batch size).",
     "assumptions": COMMON_ASSUMPTIONS,
@@ -408,7 +421,8 @@ PROPS["C10"] = {
                   "runs 23 call templates in which EVERY argument depends on the row (separator, positions, numbers taken from the key) over stores of 2-7 "
                   "pairs so that one chunk holds rows with different arguments.",
     "level_note": "Trusted: lib/refeval.go re-implementations. substr follows the README wording [start, end) with 0 <= start <= end. int()/float() of "
-                  "non-numeric text, float-to-text rendering, overflow, out-of-range [n], missing JSON members and case mapping of non-ASCII text are outside the domain.",
+                  "non-numeric text, float-to-text rendering, overflow, out-of-range [n], missing JSON members and case mapping of non-ASCII text are outside the domain."
+                  " Later widening: integers up to the int64 limits; every text argument also as value + '' and split(value, '|')[0] (another internal representation); text lists whose elements read as numbers stay text lists (the reference is type-based).",
     "rule": "enumerated (function, argument tuple, form) cases (each once) + rapid samples. Non-trivial = the case is inside the documented domain "
             "(the reference defines a value or a documented refusal); distinct = distinct (statement, pair).",
     "assumptions": COMMON_ASSUMPTIONS,
@@ -454,7 +468,8 @@ PROPS["C12"] = {
                   "end-of-stream and add nothing; a following select * where key = k sees the model's value. A metamorphic leg (no reference evaluator; key "
                   "expressions may mention `key` too) demands that `put p1, .., pn` issues exactly the writes of the n statements `put p1`; ..; `put pn` "
                   "executed in order, so no pair can depend on its neighbours. Histories as in C11.",
-    "level_note": "Numbers are integers (float rendering is unspecified). Empty keys are outside the domain.",
+    "level_note": "Numbers are integers (float rendering is unspecified). Empty keys are outside the domain."
+                  " Leg TestC12FloatKeys: float-valued key expressions (the reference has no text form for floats): remove e must delete exactly the key that put (e, ..) wrote. Key expressions no longer mention the key keyword (refused by the engine since repair 56 of DESIGN 8.1; C14 asserts the refusal).",
     "rule": "rapid single statements + histories. Non-trivial = a duplicate key, a value that depends on key, a REMOVE of an existing key, or a failing "
             "expression after a succeeding one; distinct = distinct (statement, prior state, polls).",
     "assumptions": COMMON_ASSUMPTIONS,
@@ -503,7 +518,8 @@ PROPS["C19"] = {
                   "produced in a preceding sequential run.",
     "level_note": "The harness does not own the Go scheduler: schedules are sampled. A value-level interference that needs one rare interleaving and involves no "
                   "data race can be missed. Package switches (PlanBatchSize, EnableFieldCache) are set before the goroutines start and only read afterwards. "
-                  "A race failure is not shrinkable; the statement set is written as the replay.",
+                  "A race failure is not shrinkable; the statement set is written as the replay."
+                  " Later widening: one statement in ten uses the short form without a select part.",
     "rule": "rapid statement sets x GOMAXPROCS x repeats. Non-trivial = at least 2 goroutines and at least 2 of the statements are aggregate or alias "
             "statements; distinct = distinct (statement set, modes, GOMAXPROCS, store).",
     "assumptions": COMMON_ASSUMPTIONS + ["the Go race detector's happens-before analysis is trusted"],
